@@ -165,10 +165,24 @@ Print Assumptions C08_teardown_without_join_refuted.
    may still use it is a recorded finding *)
 Theorem C08_teardown_checked : forall T S wv, discipline_ok S T wv = true ->
   forall m d f ln, In m S -> m_dtor m = Some d -> In (f, ln) (d_destroys d) ->
-    mem f (unjoined_uses (thread_roots T S (m_class m)) (d_join d)) = true ->
+    mem f (unjoined_uses (thread_roots T S (m_class m)) (d_paths d)) = true ->
     exists w, In w wv /\ v_class w = m_class m /\ v_site w = m_name m /\ v_what w = f /\ v_kind w = "destroy"%string.
 Proof. exact teardown_checked. Qed.
 Print Assumptions C08_teardown_checked.
+
+(* The teardown rule is path-sensitive over the destructor's paths (its calls on `this` inlined): a destructor all of whose
+   paths execute join() exposes nothing; a path that skips join() on the strength of a member the thread itself writes
+   exposes what the thread still uses after that write. *)
+Theorem C08_all_paths_joined_safe : forall thr paths,
+  forallb (fun p => fst p) paths = true -> unjoined_uses thr paths = [].
+Proof. exact all_paths_joined_safe. Qed.
+Print Assumptions C08_all_paths_joined_safe.
+
+Theorem C08_skipped_path_exposes_tail : forall thr paths gs g t x,
+  In (false, gs) paths -> gs <> [] -> In g gs -> thread_writes thr g = true -> In t thr -> In x (tail_after t g) ->
+  mem x (unjoined_uses thr paths) = true.
+Proof. exact skipped_path_exposes_tail. Qed.
+Print Assumptions C08_skipped_path_exposes_tail.
 
 (* Use after release (F-4).  An atomic exit flag orders what precedes its store before the owner's teardown - not what
    follows it: the caller of quit() stores the flag (hb-before the owner's destruction of the object: hb tr 0 2) and then
@@ -205,6 +219,18 @@ Theorem C08_borrow_checked : forall T S wv, discipline_ok S T wv = true ->
     exists w, In w wv /\ v_class w = m_class m /\ v_site w = m_name m /\ v_what w = pa_callee pa /\ v_kind w = kind.
 Proof. exact borrow_checked. Qed.
 Print Assumptions C08_borrow_checked.
+
+(* Registered callbacks: a callback set on an object whose lifetime is a shared_ptr reference count (it can outlive the
+   registering object and fires on its own loop thread) must not capture the registering object's raw `this` - or that is a
+   recorded finding / a justified table entry. *)
+Theorem C08_callback_checked : forall T S wv, discipline_ok S T wv = true ->
+  forall m ra, In m S -> In ra (m_regargs m) -> mem (ra_target ra) (t_shared T) = true ->
+    lookup3 (m_class m) (m_name m) (ra_callee ra) (t_lifetime_ok T) = false ->
+    (seqb (ra_kind ra) "this" || seqb (ra_kind ra) "member") = true ->
+    exists w, In w wv /\ v_class w = m_class m /\ v_site w = m_name m /\ v_what w = ra_callee ra /\
+              v_kind w = "rawthis-callback"%string.
+Proof. exact callback_checked. Qed.
+Print Assumptions C08_callback_checked.
 
 (* every recorded finding is still present (a waiver that no longer matches anything must be removed) - NOT a theorem:
    a repaired tree must not raise an alarm; bin/check reports stale waivers as a note. *)
